@@ -110,5 +110,30 @@ def genEuler (m : Model) (π : DepOrder) (removeUnused : Bool) : Option (List St
   pure (unpackStates L (fun _ => true) ++ unpackParams L keep ++ unpackMissing L ++
     bodySlots m L (fun s d _ => ([], eulerStore s d)) order)
 
+
+/-- head of `missing_values`: requested states and parameters are copied from the inputs -/
+def missHead (req : List Name) (names : List Name) : List Stmt :=
+  names.filterMap fun p => (slotOf req p).map fun i => Stmt.store i (.var p)
+
+/-- body of `missing_values`: the sorted assignments, a store after each requested one, and the
+early exit "`if n >= N: break`" (`left` = requested values still to be written) -/
+def missBody (m : Model) (req : List Name) : Nat → List Name → List Stmt
+  | _, [] => []
+  | left, x :: rest =>
+    match m.rhsOf x with
+    | none => missBody m req left rest
+    | some e =>
+      match slotOf req x with
+      | some i => .define x e :: .store i (.var x) :: (if left ≤ 1 then [] else missBody m req (left - 1) rest)
+      | none => .define x e :: (if left = 0 then [] else missBody m req left rest)
+
+/-- `CodeGenerator.missing_values` (states and parameters always unpacked) -/
+def genMissing (m : Model) (π : DepOrder) (req : List Name) : Option (List Stmt) := do
+  let L ← layout m π
+  let order ← sortedAssignments m π false
+  let head := missHead req (m.stateNames ++ m.paramNames)
+  pure (unpackStates L (fun _ => true) ++ unpackParams L (fun _ => true) ++ unpackMissing L ++ head ++
+    missBody m req (req.length - (stores head).length) order)
+
 end Impl
 end Gx
